@@ -324,6 +324,49 @@ func VerifLemma_C18D_SweepSymbolic() {
 	vCheckSweep(paths, marked)
 }
 
+// VerifLemma_C18D_SweepShapes: N locations, each one of 8 (+2 with EXT) shapes over shared symbolic indexes
+// (message a, fields b1/b2, option tags own), in any order (so the error cases and the parent-before-child
+// precondition matter); any subset of the locations' paths is marked (also non-option paths: error cases).
+func VerifLemma_C18D_SweepShapes() {
+	n := verifParam("N")
+	shapes := 8
+	if verifParam("EXT") > 0 {
+		shapes = 10
+	}
+	nn := func() int32 { return verifNondetInt32(0, 0x7fffffff) }
+	a, b1, b2 := nn(), nn(), nn()
+	paths := make([][]int32, n)
+	var marked [][]int32
+	for i := range paths {
+		switch verifNondetChoice(shapes) {
+		case 0:
+			paths[i] = []int32{8}
+		case 1:
+			paths[i] = []int32{8, nn()}
+		case 2:
+			paths[i] = []int32{4, a, 2, b1}
+		case 3:
+			paths[i] = []int32{4, a, 2, b1, 8}
+		case 4:
+			paths[i] = []int32{4, a, 2, b2, 8}
+		case 5:
+			paths[i] = []int32{4, a, 2, b1, 8, nn()}
+		case 6:
+			paths[i] = []int32{4, a, 2, b2, 8, nn()}
+		case 7:
+			paths[i] = []int32{nn(), nn()}
+		case 8:
+			paths[i] = []int32{7, b1, 8}
+		case 9:
+			paths[i] = []int32{7, b1, 8, nn(), nn()}
+		}
+		if verifNondetBool() {
+			marked = append(marked, paths[i])
+		}
+	}
+	vCheckSweep(paths, marked)
+}
+
 // VerifLemma_C18D_SweepLayout: a realistic layout with symbolic tags and indexes:
 //
 //	[8] [8,x] [8] [8,y]   [4,a,2,b,8] [4,a,2,b,8,c] [4,a,2,b,8,d..]   [4,a,2,e] [4,a,2,e,8] [4,a,2,e,8,f]
